@@ -39,7 +39,9 @@ int vt_count_kind(int kind);
 int vt_is_collective_kind(int kind);
 
 /* captured datatype constructors */
+#ifndef VT_NTYPES
 #define VT_NTYPES 12
+#endif
 #define VT_TARR 8
 enum vt_tkind { T_NONE = 0, T_SUBARRAY, T_HVECTOR, T_HINDEXED, T_STRUCT, T_RESIZED, T_VECTOR, T_CONTIG, T_DUP };
 struct vt_type {
